@@ -239,6 +239,9 @@ def run(prog: Program, rep, tier: str) -> None:
             n_attr += 1
             if any(n.func.attr in k for k in known):
                 continue
+            # the receiver may be an instance of a subclass (`self` in a template method, a parameter annotated with the base)
+            if any(n.func.attr in (_attr_names(prog, c) or {n.func.attr}) for t in ts for c in prog.all_subclasses(t, include_self=False)):
+                continue
             ff = ff or facts_for(fi)
             si = ff.stmt_of(n)
             dead = _dead_under_constants(prog, fi, si.facts) if si else None
